@@ -292,6 +292,24 @@ func (p *Path) feasible() bool {
 func (P *Prog) constTable(fn *ssa.Function, pi, ri int) (map[string]string, string) {
 	out := map[string]string{}
 	pt := T("param", itoa(int64(pi)))
+	// a lookup in a constant package-level map literal is the same table
+	if ps := P.allPaths(fn); len(ps) == 1 && len(ps[0].conds) == 0 && ri < len(ps[0].results()) {
+		rt := ps[0].results()[ri]
+		if rt.Op == "lookup" && len(rt.Args) == 2 && rt.Args[1].eq(pt) && rt.Args[0].Op == "load" && rt.Args[0].Args[0].Op == "global" {
+			if tab, ok := P.constGlobalMap(rt.Args[0].Args[0].S); ok {
+				for k, v := range tab {
+					out[k] = v
+				}
+				out["default"] = "0"
+				if rs := fn.Signature.Results(); ri < rs.Len() {
+					if b, isB := rs.At(ri).Type().Underlying().(*types.Basic); !isB || b.Info()&types.IsNumeric == 0 {
+						out["default"] = "zero"
+					}
+				}
+				return out, ""
+			}
+		}
+	}
 	for _, p := range P.allPaths(fn) {
 		if !p.feasible() {
 			continue
